@@ -446,6 +446,10 @@ def main(tier, seed):
             ev.inconc("fuzz artifact did not reproduce")
             continue
         data = open(art, "rb").read()
+        if "stack-overflow" in rep and b"{" in data:
+            # known finding unbounded-closure-recursion (listed under C13)
+            ev.excluded_known["unbounded-closure-recursion"] = ev.excluded_known.get("unbounded-closure-recursion", 0) + 1
+            continue
         keep = os.path.join(BUILD, "..", "replays", PID)
         os.makedirs(keep, exist_ok=True)
         dst = os.path.join(keep, os.path.basename(art))
